@@ -3,4 +3,4 @@
 pid=$1; shift
 echo "##### $pid"
 tools/validate_seed.sh $pid 2>&1 | tail -2
-tools/try_seed.sh /tmp/seedwork/$pid/patch.diff "$@" 2>&1 | cut -c1-220
+tools/try_seed.sh /tmp/seedwork${SEED_ROUND}/$pid/patch.diff "$@" 2>&1 | cut -c1-220
